@@ -112,6 +112,9 @@ var _ = pr.AutoF
 //@   props C09 C13
 //@   modifies anything
 //@   assert after newGridX#1: forall(i, gridX, newGridX, !occupiedCellsInThisRow[i])
+// the weaker half that the code does establish: the FIRST slot of every cell is free, however many slots the
+// row-spanning cells of earlier rows occupy before it
+//@   assert after cell.GridX#1: !occupiedCellsInThisRow[cell.GridX] && cell.GridX == gridX
 
 // geometry readers used while collecting links (frame only)
 //@ func HitArea
